@@ -216,9 +216,7 @@ func c01Classify(t reflect.Type, val reflect.Value, what string, got, want []byt
 			return "NilPtrToValueReceiverMarshaler"
 		}
 	}
-	if strings.Contains(ts, "main.TgIntKey") && strings.Contains(ts, "omitempty") {
-		return "OmitemptyOnTextMarshalerScalar"
-	}
+	// (omitempty on a scalar type with MarshalText kept the zero value: repaired in /repo, 097e042; no class any more)
 	if strings.Contains(ts, "**") && strings.Contains(ts, ",string") {
 		return "StringTagOnDoublePointer"
 	}
@@ -1351,12 +1349,8 @@ func c01AuditIfaces(r *rand.Rand, tier string) []c01AuditCase {
 				// 0: the interface variable itself (direct = its dynamic value, pointer = *I, interface = inside interface{})
 				v := reflect.New(it)
 				n := set(v.Elem())
-				if d := dyn[di]; d.Type() == reflect.TypeOf((*A7STP)(nil)) && d.IsNil() {
-					out = append(out, c01AuditCase{stratum: "iface", name: fmt.Sprintf("%s holding %s", it, n), v: v, reaches: []int{2}})
-					out = append(out, c01AuditCase{stratum: "iface", name: fmt.Sprintf("%s holding %s", it, n), v: v, reaches: []int{0}, open: "NilPtrReceiverTextMarshalerAtTopLevel"})
-				} else {
-					out = append(out, c01AuditCase{stratum: "iface", name: fmt.Sprintf("%s holding %s", it, n), v: v, reaches: []int{0, 2}})
-				}
+				// (a nil *T with a pointer-receiver MarshalText at top level was written as "": repaired in /repo, b88d764)
+				out = append(out, c01AuditCase{stratum: "iface", name: fmt.Sprintf("%s holding %s", it, n), v: v, reaches: []int{0, 2}})
 				out = append(out, c01AuditCase{stratum: "iface", name: fmt.Sprintf("*%s holding %s", it, n), v: v, reaches: []int{1}, open: ptrOpen})
 				// 1: struct fields: only field / between others / omitempty
 				for shape := 0; shape < 3; shape++ {
@@ -1370,7 +1364,6 @@ func c01AuditIfaces(r *rand.Rand, tier string) []c01AuditCase {
 						fs = []reflect.StructField{{Name: "I", Type: it, Tag: `json:"i,omitempty"`}, {Name: "J", Type: it, Tag: `json:",omitempty"`}, {Name: "Z", Type: reflect.TypeOf(0)}}
 					}
 					st := reflect.New(reflect.StructOf(fs))
-					omitOpen := ""
 					for f := range fs {
 						if fs[f].Type == it {
 							if fs[f].Name == "J" {
@@ -1378,12 +1371,10 @@ func c01AuditIfaces(r *rand.Rand, tier string) []c01AuditCase {
 							} else {
 								set(st.Elem().Field(f))
 							}
-							if shape == 2 && st.Elem().Field(f).IsNil() && it.Implements(tgTextMarshalerIface) {
-								omitOpen = "OmitemptyNilTextMarshalerInterface"
-							}
 						}
 					}
-					out = append(out, c01AuditCase{stratum: "iface", name: fmt.Sprintf("struct shape %d with %s holding %s", shape, it, n), v: st, open: omitOpen})
+					// (omitempty on a nil TextMarshaler-typed interface wrote "i":null: repaired in /repo, 097e042)
+					out = append(out, c01AuditCase{stratum: "iface", name: fmt.Sprintf("struct shape %d with %s holding %s", shape, it, n), v: st})
 				}
 				// 2: elements and map values, mixed with other dynamic values
 				sl := reflect.New(reflect.SliceOf(it))
